@@ -18,7 +18,7 @@ import (
 type control struct {
 	Name   string              `json:"name"`
 	Patch  string              `json:"patch"`  // path relative to /verif
-	Kind   string              `json:"kind"`   // "breaking" (rules must fire) or "neutral" (nothing may fire)
+	Kind   string              `json:"kind"`   // "breaking" (rules must fire), "neutral" (nothing may fire) or "drift" (the named rules fire, nothing else may)
 	Expect map[string][]string `json:"expect"` // property -> rules that must report a finding
 	Note   string              `json:"note,omitempty"`
 }
@@ -184,7 +184,11 @@ func thoroughImpl(id string, prop Property, base []*report.Rule) (map[string]int
 					}
 				}
 			}
-			switch c.Kind {
+			kind := c.Kind
+			if kind == "drift" && len(want) == 0 {
+				kind = "neutral" // a drift control must be silent for every property it does not name
+			}
+			switch kind {
 			case "neutral":
 				if len(all) > 0 {
 					rec("FALSE-ALARM", strings.Join(all, "; "))
